@@ -86,4 +86,15 @@ def exampleShape : MethodShape :=
 example : (genMethod exampleShape).evalParams = ["p0", impossible, "p2"] ∧
     (genMethod exampleShape).exitArgs = some ["p0", "p1", "p2"] := by decide
 
+/-- **C05, the answer function's signature**: `AnswerFn` takes the receiver (as the method's receiver kind dictates —
+    by shared / exclusive reference or by value / `Rc` / `Arc`) followed by one parameter per declared parameter, in
+    declaration order, each with its declared type. -/
+theorem C05_answer_fn_signature (s : MethodShape) :
+    (genMockFn s).answerParams = answerRecvType s.recv :: s.params.map (answerParamType ·.cls) ∧
+    (genMockFn s).answerParams.length = s.params.length + 1 ∧
+    ((genMockFn s).answerHrtb = true ↔ s.recv ≠ .owned ∧ s.recv ≠ .rc ∧ s.recv ≠ .arc) := by
+  refine ⟨rfl, by simp [genMockFn], ?_⟩
+  simp only [genMockFn]
+  cases h : s.recv <;> simp [answerByRef]
+
 end Unimock.Codegen
